@@ -41,10 +41,11 @@ def file_api(kind, src, tmp, mapping=None, copier=False, defines=None, name="pro
         lg.propagate = False
     try:
         with contextlib.redirect_stdout(io.StringIO()), contextlib.redirect_stderr(io.StringIO()), core.watchdog(30):
-            p = Program()
-            for k, v in defines or []:
-                p.resolver.current_scope.add_symbol(k, v)
+            p = None
             try:
+                p = Program()
+                for k, v in defines or []:
+                    p.resolver.current_scope.add_symbol(k, v)
                 if kind == "assemble":
                     rc = p.assemble(path, out, mapping) if mapping is not None else p.assemble(path, out)
                 else:
@@ -58,7 +59,7 @@ def file_api(kind, src, tmp, mapping=None, copier=False, defines=None, name="pro
                 rep = "raised"
                 rc = None
         data = open(out, "rb").read() if os.path.exists(out) else None
-        return rep, data, any("Success" in m for m in cap.records), list(p.resolver.get_all_labels())
+        return rep, data, any("Success" in m for m in cap.records), list(p.resolver.get_all_labels()) if p is not None else []
     finally:
         for lg in loggers:
             lg.removeHandler(cap)
